@@ -872,6 +872,23 @@ func (a *Audit) auditFuncOnce(fn *ssa.Function) {
 					}
 					a.site(fn, "compare", a.describe(in.X)+" "+in.Op.String()+" "+a.describe(in.Y), instrPos(in), okX || okY, why)
 				}
+				if in.Op == token.SHL || in.Op == token.SHR {
+					// a shift by a negative count panics: the count is unsigned, a non-negative constant, or proven >= 0
+					if bt, ok := in.Y.Type().Underlying().(*types.Basic); ok && bt.Info()&types.IsUnsigned == 0 {
+						if c, ok := in.Y.(*ssa.Const); !(ok && c.Value != nil && constant.Sign(c.Value) >= 0) {
+							okShift := false
+							if cv, isConv := in.Y.(*ssa.Convert); isConv {
+								if bt2, ok := cv.X.Type().Underlying().(*types.Basic); ok && bt2.Info()&types.IsUnsigned != 0 {
+									okShift = true
+								}
+							}
+							if !okShift {
+								okShift, _ = a.e.proveGE0(in.Y, b)
+							}
+							a.site(fn, "shift", a.describe(in), instrPos(in), okShift, map[bool]string{true: "shift count known to be non-negative", false: "shift by a signed count not known to be non-negative: a negative count panics"}[okShift])
+						}
+					}
+				}
 				if (in.Op == token.QUO || in.Op == token.REM) && isIntType(in.Type()) {
 					if c, ok := in.Y.(*ssa.Const); ok && c.Value != nil && constant.Sign(c.Value) != 0 {
 						continue
